@@ -15,11 +15,56 @@ from .nd import SymNd
 
 TABLE = []      # registered spectral decompositions for the current obligation
 LOG = []
+UF = {"on": False}
+MEMO = []       # uninterpreted eigen-decompositions handed out in UF mode: (M, w, V)
 
 
 def reset():
     TABLE.clear()
     LOG.clear()
+    MEMO.clear()
+    UF["on"] = False
+
+
+def uf_mode(on=True):
+    """eigh(M) answers with a fresh *uninterpreted* eigen-decomposition (symbolic eigenvalues, ascending, and a symbolic
+    complex eigenvector matrix), the same one for the same matrix: enough to decide that two computations are the same
+    function of the same decomposition (congruence), nothing more is assumed about w and V"""
+    UF["on"] = on
+
+
+def _eigh_uf(M):
+    for M0, w, V in MEMO:
+        if _same(M, M0, 1e-12):
+            core.CTX.stub_log.append(("eigh-uf", "memo"))
+            return w, V
+    d = M.shape[0]
+    ctx = core.CTX
+    cache = {}
+
+    def concrete(env):
+        key = id(env)
+        if key not in cache:
+            Mc = np.array([[complex(Sym.of(M[i, j]).eval(env)) for j in range(d)] for i in range(d)])
+            cache.clear()
+            cache[key] = np.linalg.eigh(Mc)
+        return cache[key]
+    w = []
+    for i in range(d):
+        a = ctx.fresh(f"eigw{len(MEMO)}_{i}", ev=lambda env, i=i: float(concrete(env)[0][i]), lo=-1e6, hi=1e6)
+        w.append(Sym(core.Poly.atom(a)))
+    for i in range(d - 1):
+        ctx.add_def((w[i] <= w[i + 1]).z3())
+    V = np.empty((d, d), dtype=object)
+    for i in range(d):
+        for j in range(d):
+            ar = ctx.fresh(f"eigVr{len(MEMO)}_{i}_{j}", ev=lambda env, i=i, j=j: float(concrete(env)[1][i, j].real), lo=-1, hi=1)
+            ai = ctx.fresh(f"eigVi{len(MEMO)}_{i}_{j}", ev=lambda env, i=i, j=j: float(concrete(env)[1][i, j].imag), lo=-1, hi=1)
+            V[i, j] = Sym(core.Poly.atom(ar), core.Poly.atom(ai))
+    V = V.view(SymNd)
+    MEMO.append((M, w, V))
+    core.CTX.stub_log.append(("eigh-uf", "new"))
+    return w, V
 
 
 def spectral(w, V, name="A"):
@@ -59,6 +104,8 @@ def _poly_bound(p: Poly):
 
 
 def _same(M, A, tol=1e-9):
+    if M is A:
+        return True
     if M.shape != A.shape:
         return False
     diffs = []
@@ -78,12 +125,23 @@ def _same(M, A, tol=1e-9):
     if ctx.feas is None:
         return False
     s = ctx.feas
-    s.push()
     t = z3.RealVal(str(frac(tol)))
-    s.add(z3.Or([z3.Or(p.z3() > t, p.z3() < -t) for p in hard]))
-    r = str(s.check())
-    s.pop()
-    return r == "unsat"
+    # entry by entry: each query is small (one difference polynomial against the path condition and definitions)
+    s.set("timeout", 30000)
+    ok = True
+    try:
+        for p in hard:
+            s.push()
+            e = p.z3()
+            s.add(z3.Or(e > t, e < -t))
+            r = str(s.check())
+            s.pop()
+            if r != "unsat":
+                ok = False
+                break
+    finally:
+        s.set("timeout", ctx.branch_timeout_ms)
+    return ok
 
 
 def _lookup(M):
@@ -98,6 +156,9 @@ def _lookup(M):
 def eigh(M, UPLO="L"):
     if nd.is_concrete(M):
         return np.linalg.eigh(nd.to_concrete(M))
+    if UF["on"]:
+        w, V = _eigh_uf(M)
+        return SymNd(list(w)), V.copy()
     hit = _lookup(M)
     if hit is None:
         raise core.StubMiss("eigh called on a symbolic matrix that is not a registered spectral parametrisation")
